@@ -27,11 +27,21 @@ type binDef struct {
 	tasks   []string          // names, in chain order (each depends on the previous one)
 	out     map[string]string // what each task prints
 	slow    bool              // the first task takes 200 ms (a job that is still running when the next reload comes)
+	env     map[string]string // pipeline-level environment (EXTRA1, EXTRA2), printed by every task
 }
 
 func (d binDef) yaml(vh string) string {
 	var sb strings.Builder
-	sb.WriteString("pipelines:\n  p:\n    concurrency: 8\n    tasks:\n")
+	sb.WriteString("pipelines:\n  p:\n    concurrency: 8\n")
+	if len(d.env) > 0 {
+		sb.WriteString("    env:\n")
+		for _, k := range []string{"EXTRA1", "EXTRA2"} {
+			if v, ok := d.env[k]; ok {
+				fmt.Fprintf(&sb, "      %s: %s\n", k, v)
+			}
+		}
+	}
+	sb.WriteString("    tasks:\n")
 	for i, n := range d.tasks {
 		fmt.Fprintf(&sb, "      %s:\n", n)
 		if i > 0 {
@@ -41,7 +51,7 @@ func (d binDef) yaml(vh string) string {
 		if i == 0 && d.slow {
 			fmt.Fprintf(&sb, "          - %s hang slowtask --for 200ms\n", vh)
 		}
-		fmt.Fprintf(&sb, "          - echo %s\n", d.out[n])
+		fmt.Fprintf(&sb, "          - echo %s \"${EXTRA1:-}\" \"${EXTRA2:-}\"\n", d.out[n])
 	}
 	return sb.String()
 }
@@ -53,7 +63,7 @@ func (d binDef) signature() string {
 		if i > 0 {
 			dep = "<-" + d.tasks[i-1]
 		}
-		parts = append(parts, n+dep+"="+d.out[n])
+		parts = append(parts, n+dep+"="+strings.TrimSpace(d.out[n]+" "+d.env["EXTRA1"]+" "+d.env["EXTRA2"]))
 	}
 	sort.Strings(parts)
 	return strings.Join(parts, " ")
@@ -85,7 +95,7 @@ func reloadBinary(t *testing.T, prop string) {
 		t.Skipf("prunner binary not built: %v", err)
 	}
 	vh := helper(t)
-	col := ev.Get(prop, "binary", "the real prunner binary (go build ./cmd/prunner from the tree under test) with a pipelines.yml that is rewritten 2-5 times between 3 generated versions of one pipeline (1-3 chained tasks that print version-specific text; versions may share task names; the sequence often returns to an earlier version, e.g. A B A), reloaded by SIGUSR1 or by --watch with a 50 ms poll interval; after every rewrite jobs are scheduled over HTTP until one shows the new version (at most 3 s), and a slow job accepted just before the rewrite must keep the version it was accepted with; oracle: task names, dependencies (GET /job/detail) and output (GET /job/logs) of every job equal the version in force when it was accepted; non-trivial = the sequence returns to an earlier version; distinct by (mode, sequence, versions)")
+	col := ev.Get(prop, "binary", "the real prunner binary (go build ./cmd/prunner from the tree under test) with a pipelines.yml that is rewritten 2-5 times between 3 generated versions of one pipeline (1-3 chained tasks that print version-specific text; versions may share task names, and a version may differ from the one before only by one more variable in the pipeline's env; the sequence often returns to an earlier version, e.g. A B A), reloaded by SIGUSR1 or by --watch with a 50 ms poll interval; after every rewrite jobs are scheduled over HTTP until one shows the new version (at most 3 s), and a slow job accepted just before the rewrite must keep the version it was accepted with; oracle: task names, dependencies (GET /job/detail) and output (GET /job/logs) of every job equal the version in force when it was accepted; non-trivial = the sequence returns to an earlier version; distinct by (mode, sequence, versions)")
 	auth := jwtauth.New("HS256", []byte(binSecret), nil)
 	_, token, _ := auth.Encode(map[string]interface{}{"sub": "bin"})
 	rapid.Check(t, func(rt *rapid.T) {
@@ -95,9 +105,20 @@ func reloadBinary(t *testing.T, prop string) {
 		names := []string{"a", "b", "c", "d"}
 		var defs []binDef
 		for v := 0; v < 3; v++ {
+			if v > 0 && rapid.Bool().Draw(rt, "onlyEnvAdded") {
+				// the same tasks as the version before; the only edit is one more variable in the pipeline's env
+				prev := defs[v-1]
+				d := binDef{version: v, tasks: prev.tasks, out: prev.out, slow: true, env: map[string]string{}}
+				for k, val := range prev.env {
+					d.env[k] = val
+				}
+				d.env[fmt.Sprintf("EXTRA%d", v)] = fmt.Sprintf("extra%d", v)
+				defs = append(defs, d)
+				continue
+			}
 			n := rapid.IntRange(1, 3).Draw(rt, "nTasks")
 			off := rapid.IntRange(0, 1).Draw(rt, "nameOffset")
-			d := binDef{version: v, out: map[string]string{}, slow: true}
+			d := binDef{version: v, out: map[string]string{}, slow: true, env: map[string]string{}}
 			for i := 0; i < n; i++ {
 				name := names[off+i]
 				d.tasks = append(d.tasks, name)
